@@ -176,6 +176,9 @@ func (c *EncryptedServerCookie) Decrypt(key []byte) (ServerCookie, error) {
 	if err != nil {
 		return ServerCookie{}, err
 	}
+	if len(c.Nonce) != 16 {
+		return ServerCookie{}, errUnexpectedCookieData
+	}
 
 	b, err := aessiv.Open(nil /* dst */, c.Nonce, c.Ciphertext, nil /* additionalData */)
 	if err != nil {
